@@ -126,7 +126,7 @@ def r4_logging(text, extra_tokens=()):
     for tok in extra_tokens:
         idx = text.find(tok)
         if idx < 0:
-            raise Unsupported("R4: listed statement %r not found" % tok)
+            continue
         if text.find(tok, idx + 1) >= 0:
             raise Unsupported("R4: listed statement %r not unique" % tok)
         j = skip_ws_back(m, idx)
